@@ -304,6 +304,7 @@ pub fn property() -> Property {
             flavor_sub!("ex-allowlist", Flavor::ExAllow, 800, 16000),
             flavor_sub!("ex-blocklist", Flavor::ExBlock, 500, 10000),
             flavor_sub!("ex-votes", Flavor::ExVotes, 500, 10000),
+            gen_sub::<super::vaultx::VxCase>("vault", 1500, 30000, super::vaultx::strategy_c02, super::vaultx::run_c02),
         ],
         floors: vec![],
         assumptions: vec![
